@@ -67,12 +67,20 @@ def Q(s):
 class GInterp(core.Interp):
   """Interp whose wp.normalize is the contract described in the module docstring (records the calls)."""
 
-  def __init__(self, *a, **k):
+  def __init__(self, *a, abstract_dot=False, **k):
     super().__init__(*a, **k)
     self.nctr = itertools.count()
     self.norms = []  # (x components, l, n components)
+    self.abstract_dot = abstract_dot
+    self.dots = []  # (x, y, name) : name == x . y  (definition)
 
   def builtin(self, fr, key, args, e):
+    if key == "dot" and self.abstract_dot and any(is_sym(c) for c in list(args[0].c) + list(args[1].c)):
+      x, y = [R(c) for c in args[0].c], [R(c) for c in args[1].c]
+      d = z3.Real(f"dot!{len(self.dots)}")
+      self.assumes.append(d == dot(x, y))
+      self.dots.append((x, y, d))
+      return d
     if key == "normalize" and any(is_sym(c) for c in args[0].c):
       x = [R(c) for c in args[0].c]
       k = next(self.nctr)
@@ -163,7 +171,7 @@ class Proof:
   def _decide(self, name, goal, guard, using):
     """-> ("unsat", None) | ("sat", [guards under which the full session has a model, pinned ones first]) | ("unknown", None)"""
     if using is not None and not any(isinstance(u, str) and u not in self.facts for u in using):
-      for tactic in (None, "qfnra-nlsat"):
+      for tactic in ("qfnra-nlsat", None):
         small = kh.Session(self._using(using), timeout_ms=min(self.timeout_ms, 5000), tactic=tactic)
         r, dt, m = small._check([guard, core.Not(goal)])
         self.ctx.log(f"goal {name} (from listed facts, {tactic or 'default'}): {r} {dt:.2f}s")
@@ -415,6 +423,7 @@ def validate_geometry(seed, n=40):
 
   rng = np.random.default_rng(seed + 7)
   bad = []
+  ncap = [0]
 
   def contacts(xml):
     m = mujoco.MjModel.from_xml_string(xml)
@@ -441,6 +450,15 @@ def validate_geometry(seed, n=40):
       ax = d.geom_xmat[0].reshape(3, 3)[:, 2]
       x, _ = _closest_exact(-ax * hl, ax * hl, p2)
       bad += _sphere_pair_report(p2, r2, x, r1, c.dist, c.pos, c.frame[:3], "mujoco sphere-capsule")
+    # capsule - capsule (generic pose: single contact at the closest points of the two axis segments; both end caps occur)
+    hl2 = rng.uniform(0.02, 0.6)
+    m, d = contacts(f'<mujoco><worldbody><geom type="capsule" size="{r1} {hl}" quat="{rq()}" margin="2"/><body pos="{p2[0]} {p2[1]} {p2[2]}" quat="{rq()}"><freejoint/><geom type="capsule" size="{r2} {hl2}"/></body></worldbody></mujoco>')
+    if d.ncon == 1:
+      c = d.contact[0]
+      a1v, a2v = d.geom_xmat[0].reshape(3, 3)[:, 2] * hl, d.geom_xmat[1].reshape(3, 3)[:, 2] * hl2
+      dd, t1, t2 = seg_closest_np(d.geom_xpos[0], a1v, d.geom_xpos[1], a2v)
+      ncap[0] += int(abs(t1) == 1) + int(abs(t2) == 1)
+      bad += _sphere_pair_report(d.geom_xpos[0] + t1 * a1v, r1, d.geom_xpos[1] + t2 * a2v, r2, c.dist, c.pos, c.frame[:3], "mujoco capsule-capsule")
     # plane - sphere / plane - capsule on a tilted plane
     pq = rq()
     m, d = contacts(f'<mujoco><worldbody><geom type="plane" size="5 5 .1" quat="{pq}" margin="1"/><body pos="{p2[0]} {p2[1]} {p2[2]}"><freejoint/><geom size="{r2}"/></body></worldbody></mujoco>')
@@ -463,6 +481,8 @@ def validate_geometry(seed, n=40):
       proj = ax - nrm * np.dot(nrm, ax)
       if np.linalg.norm(proj) > 1e-3 and np.abs(np.cross(c.frame[3:6], proj)).max() > 1e-5:
         bad.append("mujoco plane-capsule second frame axis is not along the projected capsule axis")
+  if n >= 20 and ncap[0] == 0:
+    bad.append("capsule-capsule validation never hit an end-cap case")
   return bad
 
 
@@ -773,8 +793,243 @@ def unit_plane_capsule(ctx):
       P.goal(f"pos{i}/midway", veq(scl(pos, 2), add(s_, q)), desc=f"plane_capsule: pos[{i}] is not midway between the end cap surface and the plane")
 
 
+# ------------------------------------------------------------------------------------------------ capsule_capsule
+
+MINVAL = "1/1000000000000000"
+
+
+def free_vars(t, acc=None, seen=None):
+  acc = set() if acc is None else acc
+  seen = set() if seen is None else seen
+  stack = [t]
+  while stack:
+    x = stack.pop()
+    if x.get_id() in seen:
+      continue
+    seen.add(x.get_id())
+    if z3.is_const(x) and x.decl().kind() == z3.Z3_OP_UNINTERPRETED:
+      acc.add(x.decl().name())
+    stack.extend(x.children())
+  return acc
+
+
+def seg_closest_np(c1, a1, c2, a2):
+  """closest points of segments c1 + x1 a1, c2 + x2 a2, x in [-1,1]: all KKT candidates of the convex quadratic"""
+  dif = c1 - c2
+  ma, mb, mc, u, v = a1 @ a1, -(a1 @ a2), a2 @ a2, -(a1 @ dif), a2 @ dif
+  det = ma * mc - mb * mb
+  cands = []
+  if abs(det) > 1e-12 * max(ma * mc, 1e-30):
+    cands.append(((mc * u - mb * v) / det, (ma * v - mb * u) / det))
+  for x1 in (-1.0, 1.0):
+    cands.append((x1, float(np.clip((v - mb * x1) / mc, -1, 1)) if mc > 0 else 0.0))
+  for x2 in (-1.0, 1.0):
+    cands.append((float(np.clip((u - mb * x2) / ma, -1, 1)) if ma > 0 else 0.0, x2))
+  best = None
+  for x1, x2 in cands:
+    if abs(x1) <= 1 + 1e-9 and abs(x2) <= 1 + 1e-9:
+      d = float(np.linalg.norm(dif + x1 * a1 - x2 * a2))
+      if best is None or d < best[0]:
+        best = (d, x1, x2)
+  return best
+
+
+def goal_capsule_capsule(spec, pre, post):
+  c1, ax1, r1, h1 = _f32(_argv(spec, "cap1_pos")), _f32(_argv(spec, "cap1_axis")), float(_f32(_argv(spec, "cap1_radius"))), float(_f32(_argv(spec, "cap1_half_length")))
+  c2, ax2, r2, h2 = _f32(_argv(spec, "cap2_pos")), _f32(_argv(spec, "cap2_axis")), float(_f32(_argv(spec, "cap2_radius"))), float(_f32(_argv(spec, "cap2_half_length")))
+  margin = float(_f32(_argv(spec, "margin")))
+  a1, a2 = ax1 * h1, ax2 * h2
+  det = (a1 @ a1) * (a2 @ a2) - (a1 @ a2) ** 2
+  dists = post["dist_out"][0].astype(np.float64)
+  msgs = []
+  scale = 1 + np.abs(c1).max() + np.abs(c2).max() + h1 + h2 + abs(r1) + abs(r2)
+  if det >= 1e-6 * (a1 @ a1) * (a2 @ a2):  # clearly non-parallel: one contact at the closest points
+    d, x1, x2 = seg_closest_np(c1, a1, c2, a2)
+    p1, p2 = c1 + x1 * a1, c2 + x2 * a2
+    want = d - r1 - r2
+    if want <= margin - 1e-4 * scale:
+      if not np.isfinite(dists[0]):
+        msgs.append(f"no contact although the capsules are within margin (separation {want}, margin {margin})")
+      else:
+        msgs += _sphere_pair_report(p1, r1, p2, r2, float(dists[0]), post["pos_out"][0].astype(np.float64), post["normal_out"][0].astype(np.float64), f"capsule_capsule (closest segment points x1={x1:.4f}, x2={x2:.4f})")
+    elif want > margin + 1e-4 * scale and np.isfinite(dists[0]):
+      msgs.append(f"contact with dist {dists[0]} although separation {want} > margin {margin}")
+    if np.isfinite(dists[1]):
+      msgs.append("second contact for non-parallel capsules")
+  elif det < 1e-15 * 0.5:  # parallel branch: every contact is (an end of one segment, closest point of the other)
+    cands = []
+    for s_ in (1.0, -1.0):
+      e1 = c1 + s_ * a1
+      cands.append((e1, _closest_exact(c2 - a2, c2 + a2, e1)[0]))
+    for s_ in (1.0, -1.0):
+      e2 = c2 + s_ * a2
+      cands.append((_closest_exact(c1 - a1, c1 + a1, e2)[0], e2))
+    for k in range(2):
+      if not np.isfinite(dists[k]):
+        continue
+      reps = [_sphere_pair_report(p1, r1, p2, r2, float(dists[k]), post["pos_out"][k].astype(np.float64), post["normal_out"][k].astype(np.float64), "") for p1, p2 in cands]
+      if all(reps):
+        msgs.append(f"parallel capsules: contact {k} (dist {dists[k]}) is not (segment end, closest point of the other segment): {min(reps, key=len)[:2]}")
+  return (not msgs), "; ".join(msgs[:3]) or "capsule_capsule ok"
+
+
+def pair_contract(p1, r1, p2, r2, d, pos, n):
+  """what unit sphere_sphere proves about sphere_sphere(p1, r1, p2, r2) -> (d, pos, n)"""
+  dv = sub(p2, p1)
+  L = d + r1 + r2
+  nz = z3.Or(*[c != 0 for c in dv])
+  return [dot(n, n) == 1, L >= 0, L * L == dot(dv, dv), veq(scl(pos, 2), add(add(p1, scl(n, r1)), sub(p2, scl(n, r2)))), z3.Implies(nz, z3.And(veq(cross(n, dv), [0, 0, 0]), dot(n, dv) > 0))]
+
+
+def kkt(x, g):
+  """x in [-1,1] minimises a convex quadratic along its coordinate: interior with zero derivative or at a bound with the
+  derivative pointing outward"""
+  return z3.And(x >= -1, x <= 1, z3.Or(g == 0, z3.And(x == 1, g <= 0), z3.And(x == -1, g >= 0)))
+
+
+def unit_capsule_capsule(ctx):
+  from mujoco_warp._src import collision_primitive_core as cpc
+
+  ctx.encode(cpc.capsule_capsule)
+  ctx.bound(note="no loops; all poses / sizes / margin symbolic; sphere_sphere used through the statements proved in unit sphere_sphere; wp.dot results named (definitions); wp.inf is a symbolic constant")
+  ctx.assume("capsule axes are unit vectors, half lengths > 0", "floats are reals")
+  ctx.notes.append(
+    "capsule_capsule: non-parallel branch (|det| >= 1e-15): the contact is at the closest points of the two axis segments (KKT of the convex quadratic in both segment parameters), normal / dist / pos as for a sphere pair; parallel branch: each of the up to two contacts is (an end point of one segment, the closest point of the other segment to it) - MuJoCo's multi-contact rule, not the global closest pair"
+  )
+  INF = z3.Real("wp_inf")
+  _rv = core.rv
+
+  def rv_inf(x):
+    if isinstance(x, float) and x == float("inf"):
+      return INF
+    return _rv(x)
+
+  calls = []
+
+  def summary(it, fr, args):
+    k = len(calls)
+    d = z3.Real(f"ss_dist!{k}")
+    pos = [z3.Real(f"ss_pos!{k}_{i}") for i in range(3)]
+    n = [z3.Real(f"ss_n!{k}_{i}") for i in range(3)]
+    p1, r1_, p2, r2_ = [R(c) for c in args[0].c], R(args[1]), [R(c) for c in args[2].c], R(args[3])
+    it.assumes += pair_contract(p1, r1_, p2, r2_, d, pos, n)
+    env = {kk: fr.env.get(kk) for kk in ("x1", "x2", "ma", "mb", "mc", "u", "v", "det")}
+    calls.append({"guard": it.active(fr), "p1": p1, "r1": r1_, "p2": p2, "r2": r2_, "d": d, "pos": pos, "n": n, "env": env})
+    return (d, Vec(pos, (3,), "f"), Vec(n, (3,), "f"))
+
+  core.rv = rv_inf
+  try:
+    gi = GInterp(summaries={cpc.sphere_sphere.key: summary}, abstract_dot=True)
+    kt, gi = run_wrapper("k_capsule_capsule", {"dist_out": [1], "pos_out": [2], "normal_out": [2]}, interp=gi, divmode="poly")
+  finally:
+    core.rv = _rv
+  c1, ax1, r1, h1 = vec_arg(kt, "cap1_pos"), vec_arg(kt, "cap1_axis"), R(kt.args["cap1_radius"]), R(kt.args["cap1_half_length"])
+  c2, ax2, r2, h2 = vec_arg(kt, "cap2_pos"), vec_arg(kt, "cap2_axis"), R(kt.args["cap2_radius"]), R(kt.args["cap2_half_length"])
+  margin = R(kt.args["margin"])
+  dist = [R(kt.post("dist_out", 0, k=i)) for i in range(2)]
+  pos = [out_vec(kt, "pos_out", i, 3) for i in range(2)]
+  nrm = [out_vec(kt, "normal_out", i, 3) for i in range(2)]
+  rp = lib.make_replay(ctx, kt, LOC + "k_capsule_capsule", "capsule_capsule", "goal", goal="checks.geom_c20:goal_capsule_capsule")
+  a1, a2 = scl(ax1, h1), scl(ax2, h2)
+  dif = sub(c1, c2)
+  # reference scalars of the quadratic f(x1, x2) = |dif + x1 a1 - x2 a2|^2 (names with defining equations)
+  MA, MB, MC, U, V = z3.Reals("ref_ma ref_mb ref_mc ref_u ref_v")
+  defs = [MA == dot(a1, a1), MB == -dot(a1, a2), MC == dot(a2, a2), U == -dot(a1, dif), V == dot(a2, dif)]
+  pre = [dot(ax1, ax1) == 1, dot(ax2, ax2) == 1, h1 > 0, h2 > 0]
+  DET = MA * MC - MB * MB
+  inputs = free_vars(z3.And(*[x == 0 for x in c1 + ax1 + c2 + ax2] + [r1 == 0, r2 == 0, h1 == 0, h2 == 0, margin == 0]))
+  scalar_facts = [f for f in (core.zbool(x) for x in kt.bg) if not (free_vars(f) & inputs)]
+
+  def pin(c1v, ax1v, h1v, c2v, ax2v, h2v, r1v="1/4", r2v="1/2", mg="10"):
+    return z3.And(pin_vec(c1, c1v), pin_vec(ax1, ax1v), h1 == Q(h1v), pin_vec(c2, c2v), pin_vec(ax2, ax2v), h2 == Q(h2v), r1 == Q(r1v), r2 == Q(r2v), margin == Q(mg))
+
+  X, Y, Z = (1, 0, 0), (0, 1, 0), (0, 0, 1)
+  D1 = ("3/5", "4/5", 0)
+  pins_np = [
+    pin((0, 0, 0), X, "1", (0, 0, 1), Y, "1"),  # crossing, interior / interior
+    pin((0, 0, 0), X, "1", (3, 0, 1), Y, "1"),  # x1 clamped at +1
+    pin((0, 0, 0), X, "1", (-3, 0, 1), Y, "1"),  # x1 clamped at -1
+    pin((0, 0, 0), X, "1", (0, 3, 1), Y, "1"),  # x2 clamped at -1
+    pin((0, 0, 0), X, "1", (0, -3, 1), Y, "1"),  # x2 clamped at +1
+    pin((0, 0, 0), X, "1", (3, 3, 1), D1, "1"),  # both clamped, skew
+    pin((0, 0, 0), X, "2", (1, -3, 1), D1, "1/2"),
+    pin((0, 0, 0), X, "1", (-3, -3, 1), D1, "1"),
+    pin((1, 1, 0), D1, "1", (0, 0, 2), X, "3"),
+  ]
+  pins_par = [pin((0, 0, 0), X, "1", (0, 0, 1), X, "1"), pin((0, 0, 0), X, "1", (3, 0, 1), X, "1"), pin((0, 0, 0), X, "2", ("1/2", 0, 1), X, "1/2"), pin((0, 0, 0), Z, "1", (0, 1, -3), Z, "1")]
+  names = {"r1": r1, "r2": r2, "half_length1": h1, "half_length2": h2, "margin": margin, "ref_det": DET}
+  if len(calls) != 5:
+    ctx.error(f"capsule_capsule calls sphere_sphere {len(calls)} times (expected 1 + 4): harness does not apply")
+    return
+  base = kt.bg + pre + defs
+  nonpar = DET >= Q(MINVAL)
+  # ---------------------------------------------------------------- non-parallel branch
+  C = calls[0]
+  P = Proof(ctx, base + [nonpar], names, rp, prefix="nonparallel/", pins=pins_np)
+  ctx.reach(P.full, "twin:nonparallel", pins_np[5])
+  e = C["env"]
+  x1, x2 = R(e["x1"]), R(e["x2"])
+  P.lemma("cauchy-schwarz", DET == dot(cross(a1, a2), cross(a1, a2)), using=defs)
+  P.lemma("ma>0", MA > 0, using=defs + pre)
+  P.lemma("mc>0", MC > 0, using=defs + pre)
+  link = []
+  for nm, ref in (("ma", MA), ("mb", MB), ("mc", MC), ("u", U), ("v", V)):
+    if P.lemma(f"code-{nm}", R(e[nm]) == ref):
+      link.append(f"code-{nm}")
+  P.lemma("code-det", R(e["det"]) == DET, using=link + [])
+  P.goal("branch-taken", C["guard"], using=["code-det", nonpar], desc="capsule_capsule: non-parallel axes (det >= 1e-15) do not take the single-contact branch")
+  P.lemma("guard", C["guard"], using=["code-det", nonpar])
+  sc = scalar_facts + [nonpar, "ma>0", "mc>0", "code-det", "guard"] + link
+  P.goal("radii", z3.And(C["r1"] == r1, C["r2"] == r2), using=[], desc="capsule_capsule: the sphere test does not use the two capsule radii")
+  P.goal("point1-on-segment1", veq(C["p1"], add(c1, scl(a1, x1))), using=[], desc="capsule_capsule: first contact point is not centre1 + x1 * axis1 * half_length1")
+  P.goal("point2-on-segment2", veq(C["p2"], add(c2, scl(a2, x2))), using=[], desc="capsule_capsule: second contact point is not centre2 + x2 * axis2 * half_length2")
+  g1 = MA * x1 + MB * x2 - U  # (1/2) df/dx1
+  g2 = MB * x1 + MC * x2 - V  # (1/2) df/dx2
+  P.goal("closest/x1-optimal", kkt(x1, g1), using=sc, desc="capsule_capsule: the point on capsule 1's axis segment is not the closest one (KKT in x1 fails: interior with non-zero derivative, outside [-1,1], or at an end although moving inward gets closer)")
+  P.goal("closest/x2-optimal", kkt(x2, g2), using=sc, desc="capsule_capsule: the point on capsule 2's axis segment is not the closest one (KKT in x2 fails)")
+  rec = C["d"] <= margin
+  P.goal("output/contact0", z3.And(dist[0] == C["d"], veq(pos[0], C["pos"]), veq(nrm[0], C["n"])), rec, using=["guard"], desc="capsule_capsule: contact 0 is not the sphere-pair result (normal, dist, midway pos) at the two closest points")
+  P.goal("output/contact0-absent", dist[0] == INF, z3.Not(rec), using=["guard"], desc="capsule_capsule: a contact is returned although dist > margin")
+  P.goal("output/no-second-contact", dist[1] == INF, using=["guard"], desc="capsule_capsule: non-parallel capsules return a second contact")
+  # ---------------------------------------------------------------- parallel branch
+  P2 = Proof(ctx, base + [z3.Not(nonpar)], names, rp, prefix="parallel/", pins=pins_par)
+  ctx.reach(P2.full, "twin:parallel", pins_par[0])
+  P2.lemma("ma>0", MA > 0, using=defs + pre)
+  P2.lemma("mc>0", MC > 0, using=defs + pre)
+  P2.lemma("cauchy-schwarz", DET >= 0, using=[P.facts["cauchy-schwarz"]] if "cauchy-schwarz" in P.facts else None)
+  e = calls[1]["env"]
+  link = []
+  for nm, ref in (("ma", MA), ("mb", MB), ("mc", MC), ("u", U), ("v", V)):
+    if P2.lemma(f"code-{nm}", R(e[nm]) == ref):
+      link.append(f"code-{nm}")
+  P2.lemma("code-det", R(e["det"]) == DET, using=link + [])
+  P2.lemma("not-nonparallel-branch", z3.Not(core.zbool(calls[0]["guard"])), using=["code-det", z3.Not(nonpar), "cauchy-schwarz"])
+  sc2 = scalar_facts + ["ma>0", "mc>0"] + link
+  spec_ = [(1, "x1", 1), (2, "x1", -1), (3, "x2", 1), (4, "x2", -1)]
+  valid = []
+  for j, fixed, sgn in spec_:
+    Cj = calls[j]
+    if fixed == "x1":
+      xv = R(Cj["env"]["x2"])
+      pt1, pt2 = add(c1, scl(a1, sgn)), add(c2, scl(a2, xv))
+      opt = kkt(xv, MB * sgn + MC * xv - V)
+    else:
+      xv = R(Cj["env"]["x1"])
+      pt1, pt2 = add(c1, scl(a1, xv)), add(c2, scl(a2, sgn))
+      opt = kkt(xv, MA * xv + MB * sgn - U)
+    g = core.zbool(Cj["guard"])
+    P2.goal(f"candidate{j}/points", z3.And(veq(Cj["p1"], pt1), veq(Cj["p2"], pt2), Cj["r1"] == r1, Cj["r2"] == r2), g, using=[], desc=f"capsule_capsule (parallel): candidate {j} is not (segment end, point of the other segment) with the capsule radii")
+    P2.goal(f"candidate{j}/closest-to-end", opt, g, using=sc2 + [g], desc=f"capsule_capsule (parallel): candidate {j}'s point on the other segment is not the closest one to the segment end")
+    valid.append((g, Cj))
+  for k in range(2):
+    alts = [z3.And(g, Cj["d"] <= margin, dist[k] == Cj["d"], veq(pos[k], Cj["pos"]), veq(nrm[k], Cj["n"])) for g, Cj in valid]
+    P2.goal(f"output/contact{k}", z3.Or(dist[k] == INF, *alts), using=["not-nonparallel-branch"], desc=f"capsule_capsule (parallel): contact {k} is neither absent nor one of the four end-point candidates within margin")
+  g, Cj = valid[0]
+  P2.goal("output/first-candidate-kept", z3.And(dist[0] == Cj["d"], veq(pos[0], Cj["pos"]), veq(nrm[0], Cj["n"])), z3.And(g, Cj["d"] <= margin), using=["not-nonparallel-branch"], desc="capsule_capsule (parallel): the first end-point candidate within margin is not returned as contact 0")
+
+
 def unit_validate(ctx):
-  bad = validate_geometry(ctx.seed, 25 if ctx.tier == "quick" else 100)
+  bad = validate_geometry(ctx.seed, 60 if ctx.tier == "quick" else 300)
   for b in bad[:5]:
     ctx.error("geometric statement does not hold for MuJoCo's own contacts (statement over-demands): " + b)
   sess = ctx.session([])
@@ -792,5 +1047,6 @@ def units(include_frame=True):
     ("geometry/closest_segment_point", unit_closest),
     ("geometry/sphere_capsule", unit_sphere_capsule),
     ("geometry/plane_capsule", unit_plane_capsule),
+    ("geometry/capsule_capsule", unit_capsule_capsule),
   ]
   return u
